@@ -1067,6 +1067,9 @@ func c14RunList(res *mc.Result, l *mc.Local, ds *mc.DistinctSet, k c14Consts, w 
 				cls, nontrivial := j.judge(r)
 				if nontrivial && j.nv == 0 {
 					ds.AddHash(cls)
+					if l.Evals%4099 == 1 {
+						res.Sample(fmt.Sprintf("case %s -> pod=%v containers=%v", c, j.pod, j.ctrs))
+					}
 				}
 			}
 		}
